@@ -3,6 +3,7 @@ CA = "crates/tower-resilience-cache/src/"
 MUT = [("sub", "R16-mut-self", r"\bself\b", "self_", -1), ("inject", None, "start", "let mut self_ = self;")]
 LISTEN = ("wrapcalls", "R6-closure-wrap", r"FnListener::new", "vx_wrap::<Listener>()", 1)
 WRAP = ("wrapcalls", "R6-closure-wrap", r"Arc::new", "vx_wrap()", 1)
+WRAPID = ("wrapcalls", "R6-closure-wrap", r"Arc::new", "vx_wrap_of({args})", 1)
 def setter(file, *extra):
     return dict(file=file, rules=MUT + list(extra))
 UNIT = dict(
@@ -30,7 +31,7 @@ UNIT = dict(
         "CacheConfigBuilder::max_size": setter("caconfig"),
         "CacheConfigBuilder::ttl": setter("caconfig"),
         "CacheConfigBuilder::eviction_policy": setter("caconfig"),
-        "CacheConfigBuilder::key_extractor": setter("caconfig", WRAP),
+        "CacheConfigBuilder::key_extractor": setter("caconfig", WRAPID),
         "CacheConfigBuilder::name": setter("caconfig", ("sub", "R6-into", r"\bname\.into\(\)", "name", 1)),
         "CacheConfigBuilder::on_hit": setter("caconfig", LISTEN),
         "CacheConfigBuilder::on_miss": setter("caconfig", LISTEN),
@@ -40,7 +41,7 @@ UNIT = dict(
         "SharedCacheConfigBuilder::max_size": setter("cashared"),
         "SharedCacheConfigBuilder::ttl": setter("cashared"),
         "SharedCacheConfigBuilder::eviction_policy": setter("cashared"),
-        "SharedCacheConfigBuilder::key_extractor": setter("cashared", WRAP),
+        "SharedCacheConfigBuilder::key_extractor": setter("cashared", WRAPID),
         "SharedCacheConfigBuilder::name": setter("cashared", ("sub", "R6-into", r"\bname\.into\(\)", "name", 1)),
         "SharedCacheConfigBuilder::on_hit": setter("cashared", LISTEN),
         "SharedCacheConfigBuilder::on_miss": setter("cashared", LISTEN),
